@@ -419,8 +419,21 @@ class Plugin:
         """
         try:
             # print(f"Fetching {d} in {self}, hope to see {hope_to_see}")
+            new_chunk = next(iters[d])
+            buffered = self.input_buffer[d]
+            if (
+                buffered is not None
+                and buffered.start == buffered.end
+                and not len(buffered)
+                and buffered.end != new_chunk.start
+            ):
+                # A zero-duration leftover of the previous subrun holds nothing.
+                # Concatenating it would stretch the first chunk of the next
+                # subrun back over the gap between the subruns, after which its
+                # subruns no longer line up with its time range.
+                buffered = None
             self.input_buffer[d] = strax.Chunk.concatenate(
-                [self.input_buffer[d], next(iters[d])], self.allow_superrun
+                [buffered, new_chunk], self.allow_superrun
             )
             # print(f"Fetched {d} in {self}, "
             #      f"now have {self.input_buffer[d]}")
